@@ -42,6 +42,8 @@ CHECKS = {
          "Per-image-ranking weight conservation, order / grouping preservation and each-linearisation-once are decided by TLC on every recorded call (all removal sets, both flags, three input forms).", "0.7 / notes/C11_C12_report.md"),
  "C14": ("TLC: MC_Generators (declarative Huntington-Hill exists / unique up to ties / monotone) + call-level trace validation of generate_profile outputs of all 16 generator variants against GenVerdict of Generators.tla",
          "Structure is decided per run on seeded real random streams: total weight, whole weights, declared / unrepeated candidates, completeness class, short length, cumulative points, bloc sums, apportionment.", "0.7 / notes/C14_C15_report.md"),
+ "C16": ("exact law of each generator's output (every outcome of the scripted random source enumerated) validated by TLC against the probability-labelled draw machines of GenDist.tla; MC_GenDist: laws sum to 1, PL restricted to a slate is PL, detailed balance and irreducibility of the MCMC kernels",
+         "Distributional claims are decided exactly, not statistically: the code's law at each parameter point is computed path by path and compared entry by entry; MCMC variants by their kernels (stationarity w.r.t. the exact table + irreducibility); spatial models by scripted positions.", "0.7 / notes/C16_report.md"),
  "C13": ("TLC trace validation of IRV/SNTV/SequentialRCV/TopTwo/Alaska runs against the compositions as defined in Election.tla",
          "The spec defines the aliases and composites as the documented compositions; recorded rounds must match them step by step on every path.", "5 C13"),
 }
